@@ -17,6 +17,7 @@
 #include "myth_config.h"
 #include "myth_misc.h"
 #include "myth_real.h"
+#include "myth_verif.h"
 
 
 //Access to time stamp counter
@@ -45,6 +46,9 @@ static inline uint64_t myth_get_rdtsc() {
 }
 
 static inline int hr_gettime(struct timespec * ts) {
+#ifdef MYTH_VERIF
+  if (myth_verif_clock(ts)) return 0;
+#endif
 #if defined(HAVE_LIBRT)
   return clock_gettime(CLOCK_REALTIME, ts);
 #else
